@@ -275,6 +275,28 @@ def expand_item(repo, relfile, selector, body, tmpl_name, tmpl_line, opts):
             add(b, b, "\n" + text + "\n", origin_nl, None)
         elif d == "noop-closure":
             pass
+        elif d == "rename":
+            a_, b_ = arg
+            for mm in re.finditer(r"\b%s\b" % re.escape(a_), m[lo:hi]):
+                add(lo + mm.start(), lo + mm.end(), b_, ("repo", relfile, line_of(src, lo + mm.start())), "T10",
+                    "identifier %s renamed to %s (name clash in the single-file unit)" % (a_, b_))
+        elif d == "drop-arm":
+            if fp is None:
+                raise LostAnchor("%s: drop-arm on non-fn" % selector)
+            pos = _anchor(src, m, fp, arg, "before", selector)
+            arrow = m.find("=>", pos, fp.body_close)
+            if arrow < 0:
+                raise LostAnchor("%s: drop-arm `%s`: no =>" % (selector, arg))
+            k = arrow + 2
+            while k < fp.body_close and m[k].isspace():
+                k += 1
+            if m[k] != "{":
+                raise LostAnchor("%s: drop-arm `%s`: arm body is not a block" % (selector, arg))
+            e = rs.match_close(m, k)
+            add(k, e + 1, "{ assert(false); /* arm body dropped by the extraction (T9) */ }",
+                ("repo", relfile, line_of(src, k)), "T9",
+                "match arm `%s` (lines %d-%d) is NOT verified; the contract must make it unreachable" %
+                (arg, line_of(src, k), line_of(src, e)))
         else:
             raise LostAnchor("unknown directive %s" % d)
     # ---- apply
@@ -283,8 +305,8 @@ def expand_item(repo, relfile, selector, body, tmpl_name, tmpl_line, opts):
     segs = []
     for e in edits:
         if e.start < pos:
-            if e.rule == "T1":
-                continue
+            if e.rule == "T1" or e.end <= pos:
+                continue      # lies inside a region already replaced (e.g. a dropped arm)
             raise LostAnchor("%s: overlapping rewrites at %s:%d" % (selector, relfile, line_of(src, e.start)))
         if e.start > pos:
             segs.append((src[pos:e.start], ("repo", relfile, line_of(src, pos))))
@@ -295,12 +317,15 @@ def expand_item(repo, relfile, selector, body, tmpl_name, tmpl_line, opts):
         segs.append((src[pos:hi], ("repo", relfile, line_of(src, pos))))
     out.segments = segs
     if clone_needed and opts.get("clone_impl", True):
-        generics = ""
+        tname = it.name
+        for (d, arg, lines, tl) in body:
+            if d == "rename" and arg[0] == tname:
+                tname = arg[1]
         out.segments.append((
-            "\nimpl Clone for %s {\n    #[verifier::external_body]\n    fn clone(&self) -> (r: Self) ensures r == *self { unimplemented!() }\n}\n" % it.name,
+            "\nimpl Clone for %s {\n    #[verifier::external_body]\n    fn clone(&self) -> (r: Self) ensures r == *self { unimplemented!() }\n}\n" % tname,
             ("gen", "T4", 0)))
-        out.trusted.append("T4: derived Clone of %s assumed to return an equal value" % it.name)
-        out.rules.append(("T4", "%s:%d" % (relfile, out.repo_lines[0]), "trusted Clone impl for %s" % it.name))
+        out.trusted.append("T4: derived Clone of %s assumed to return an equal value" % tname)
+        out.rules.append(("T4", "%s:%d" % (relfile, out.repo_lines[0]), "trusted Clone impl for %s" % tname))
     return out
 
 
@@ -454,6 +479,14 @@ def parse_template(path):
                         t = re.match(r"(\d+)\s*(?:`(.*)`)?\s*$", a2)
                         cur = (d2, (int(t.group(1)), t.group(2)), [], i + 1)
                         body.append(cur)
+                    elif d2 == "rename":
+                        t = re.match(r"(\w+)\s*=>\s*(\w+)\s*$", a2)
+                        body.append((d2, (t.group(1), t.group(2)), [], i + 1))
+                        cur = None
+                    elif d2 == "drop-arm":
+                        t = re.match(r"`(.*)`\s*$", a2)
+                        body.append((d2, t.group(1), [], i + 1))
+                        cur = None
                     elif d2 == "noop-closure":
                         t = re.match(r"`(.*)`\s+`(.*)`\s*$", a2)
                         body.append((d2, (t.group(1), t.group(2)), [], i + 1))
